@@ -62,6 +62,7 @@ func cmdRun(args []string) {
 	}
 	U := newUniverse()
 	var obs []*Oblig
+	var fns []*ssa.Function
 	for _, k := range P.sortedFuncKeys() {
 		if !re.MatchString(k) {
 			continue
@@ -70,7 +71,13 @@ func cmdRun(args []string) {
 		if len(fn.Blocks) == 0 || inPlaceClosure(fn) {
 			continue
 		}
-		e := verifyFunction(P, U, fn, nil)
+		fns = append(fns, fn)
+	}
+	inv := inferAll(P, U, fns, *out+"/houdini", 0)
+	fmt.Printf("invariants inferred in %.1fs\n", time.Since(t0).Seconds())
+	for _, fn := range fns {
+		k := funcKey(fn)
+		e := verifyWith(P, U, fn, nil, inv[fn])
 		if e.unsupported != "" {
 			fmt.Printf("UNSUPPORTED %s: %s\n", k, e.unsupported)
 			continue
@@ -126,10 +133,6 @@ func cmdRun(args []string) {
 	fmt.Printf("%d obligations, %d not discharged, %.1fs\n", len(obs), bad, time.Since(t0).Seconds())
 }
 
-func cmdCheck(args []string) {
-	fmt.Fprintln(os.Stderr, "check: not implemented yet")
-	os.Exit(2)
-}
 
 // inPlaceClosure: an anonymous function that is only called or deferred
 // directly where it is created; it is verified inside its parent.
